@@ -38,7 +38,7 @@ LEVEL_NOTE = ("Trusted: the simulator (FakeSocket semantics, per-node entropy "
               "streams derived from the seed), python-ecdsa.  sendall() is "
               "modelled all-or-error.  Only pure-Python backends present in "
               "/venv are exercised.")
-BUDGET = {"quick": 40, "thorough": 900}
+BUDGET = {"quick": 300, "thorough": 900}
 CHUNK = 4
 PROBES = ["short_recv", "partial_send", "wouldblock_recv", "wouldblock_send",
           "delay", "hs_failed_both", "closed_by_peer", "mode_sync",
